@@ -60,9 +60,14 @@ def main(argv=None):
     try:
         ctx, mod = run_property(prop, args.tier)
         selftest_res = None
+        sweep_res = None
         if args.tier == "thorough" and not args.no_selftest:
             from .selftest import runner
-            selftest_res = runner.run_for(prop)
+            selftest_res = runner.run_for(prop, jobs=int(os.environ.get("SA_JOBS", "16")))
+            if not ctx.analysis_errors:
+                from .selftest import automut
+                sweep_res = automut.sweep(prop, max_edits=int(os.environ.get("SA_SWEEP_MAX", "240")),
+                                          jobs=int(os.environ.get("SA_JOBS", "16")), seed=seed)
     except AnalysisError as e:
         print("ANALYSIS-ERROR property=%s %s" % (prop, e))
         return 2
@@ -120,6 +125,13 @@ def main(argv=None):
     }
     if selftest_res is not None:
         cov["selftest"] = selftest_res
+    if sweep_res is not None:
+        sweep_res["survivors"] = sweep_res["survivors"][:60]
+        sweep_res["note"] = ("systematic single-point AST edits of the anchored functions; a surviving edit is not "
+                             "necessarily a property violation - the sweep measures how much of the anchored code the "
+                             "rules constrain")
+        cov["mutation_sweep"] = sweep_res
+        cov["evaluations"] += sweep_res["edits_run"]
     ev = {
         "property_id": prop,
         "tier": args.tier,
@@ -145,6 +157,9 @@ def main(argv=None):
         print("JSON-VERDICT " + json.dumps({"violations": [v.to_json() for v in new],
                                            "known": [v.to_json() for v in viols if v.known]}))
     st_fail = False
+    if sweep_res is not None:
+        print("mutation sweep: %d edits of %d anchored functions: %s" % (
+            sweep_res["edits_run"], len(sweep_res["anchored_functions"]), json.dumps(sweep_res["result"])))
     if selftest_res is not None:
         print("selftest: breaking fired %d/%d, benign silent %d/%d, skipped %d" % (
             selftest_res["breaking_fired"], selftest_res["breaking_total"],
